@@ -381,6 +381,16 @@ def run(chk):
                             if h.type is None or any(x in norm(h.type) for x in ('AttributeError', 'Exception')):
                                 guarded = True
                     p = par
+                if not guarded and (fq, norm(n)) not in READ_EXEMPT and fi.cls is None:
+                    # the read stands in a helper that only exempt functions call, handing their element on
+                    callers = {cfq for cfq, sites in cg.sites.items() for s_ in sites if s_.kind == 'call' and
+                               any(t.kind == 'func' and t.func is fi for t in s_.targets)}
+                    ex = [k for k in READ_EXEMPT if k[0] in callers and k[1].split('.')[-1] == n.attr]
+                    if callers and len(ex) == len(callers):
+                        chk.ok('C15-A', '%s reads .%s' % (fq, n.attr), 'exempt through its only caller(s) %s: %s' % (
+                            sorted(callers), READ_EXEMPT[ex[0]]), '%s:%d' % (fi.module.relpath, n.lineno),
+                            key='C15-A|%s|%s' % (fq, norm(n)))
+                        continue
                 if not guarded and (fq, norm(n)) in READ_EXEMPT:
                     chk.ok('C15-A', '%s reads .%s' % (fq, n.attr), 'exempt: ' + READ_EXEMPT[(fq, norm(n))],
                            '%s:%d' % (fi.module.relpath, n.lineno), key='C15-A|%s|%s' % (fq, norm(n)))
